@@ -301,6 +301,22 @@ def r10_10(run, model):
             run.ob("R10.10", f"compile_cexpr|{mm.group(1)} with two literal operands is not a Go constant expression", special, site(GOC, arm["sp"]),
                    "literal operands are treated specially" if special else "both operands go through compile_imm unchanged: `127i8 + 1i8` is emitted as `127 + 1`",
                    witness="let a: int8 = 127i8 + 1i8 emits `var a int8 = 127 + 1` (Go: constant 128 overflows int8); let c: uint8 = 0u8 - 1u8 emits `0 - 1`")
+            run.ob("R10.10", "compile_cexpr|EBinary with one literal operand follows run-time semantics", special, site(GOC, arm["sp"]),
+                   "literal operands are treated specially" if special else "a literal operand goes through compile_imm unchanged: `x / 0` is emitted with the constant divisor 0",
+                   witness="fn f(x: int32) -> int32 { x / 0 } is emitted as `x__0 / 0`: Go rejects a constant zero divisor (invalid operation: division by zero) "
+                           "where goml promises a run-time failure")
+    for m in S.find(f.body, "Match"):
+        for arm in m["arms"]:
+            pt = S.norm_ws(run.facts.text(GOC, arm["pat"]["sp"]))
+            if not re.search(r"CExpr::EUnary\{", pt):
+                continue
+            found += 1
+            special = "ImmPrim" in S.norm_ws(run.facts.text(GOC, arm["body"]["sp"])) or any(
+                re.search(r"fold|const|literal", S.callee_name(c) or "", re.I) for c in S.calls(arm["body"]))
+            run.ob("R10.10", "compile_cexpr|EUnary with a literal operand is not a Go constant expression", special, site(GOC, arm["sp"]),
+                   "a literal operand is treated specially" if special else "the operand goes through compile_imm unchanged: `-0.0` is emitted as the Go constant `-0`",
+                   witness="let z: float64 = -0.0 emits the constant expression `-0` (Go constants have no negative zero: z is +0, 1.0 / z is +Inf instead of -Inf); "
+                           "let m: uint8 = -1u8 emits `-1` (Go: constant -1 overflows uint8) where goml promises wrap-around")
     if not found:
         raise AnalysisIncomplete("compile_cexpr: EBinary arm not found")
 
